@@ -299,11 +299,17 @@ def write_replay(prop, case_line, expected, observed, how, name=None):
 def matches_known(prop, case_line, message, known):
     """An open known finding suppresses exactly the violations with its signature."""
     for k in known:
-        if k.get('status') != 'open' or k.get('property') != prop:
+        if k.get('status') != 'open' or (k.get('property') != prop and prop not in k.get('also', [])):
             continue
         m = k.get('match', {})
         c = parse_case(case_line) if case_line and case_line.startswith('R ') else None
         ok = True
+        # parallel cases `X <threads> <queue length> ...`: the finding is tied to the argument value that fails
+        x = case_line.split(' ') if case_line and case_line.startswith('X ') else None
+        if 'x_queue_len' in m and (x is None or int(x[2]) != m['x_queue_len']):
+            ok = False
+        if 'x_threads' in m and (x is None or int(x[1]) != m['x_threads']):
+            ok = False
         if 'format' in m and (c is None or c['fmt'] != m['format']):
             ok = False
         if 'message_contains' in m and m['message_contains'] not in message:
